@@ -122,32 +122,42 @@ class Trace(object):
         return False
 
 
+_TR = {'trace': None, 'gni': None, 'env': None, 'max_gni': 0, 'max_env': 0, 'nenv': 0}
+
+
+def _traced_gni(*a, **k):
+    tr = _TR['trace']
+    tr.gni_calls += 1
+    if tr.gni_calls > _TR['max_gni']:
+        raise PathAbort("unwinding bound: more than %d single-IMF extractions" % _TR['max_gni'], kind='bound')
+    tr.events.append(('gni',))
+    r = _TR['gni'](*a, **k)
+    tr.events.append(('gni-end', r[1]))
+    return r
+
+
+def _traced_env(*a, **k):
+    tr = _TR['trace']
+    _TR['nenv'] += 1
+    if _TR['nenv'] > _TR['max_env']:
+        raise PathAbort("unwinding bound: more than %d envelope evaluations" % _TR['max_env'], kind='bound')
+    r = _TR['env'](*a, **k)
+    tr.events.append(('env', r is None, k.get('mode', a[1] if len(a) > 1 else 'upper')))
+    return r
+
+
 @contextlib.contextmanager
 def trace_sift(max_gni=12, max_env=80):
     """Record calls of get_next_imf / interp_envelope (attribute rebinding, no repo edit) and bound the outer loop:
-    a path that exceeds the bound is reported as 'bound exceeded', never dropped silently."""
+    a path that exceeds the bound is reported as 'bound exceeded', never dropped silently.  The wrappers are module
+    level functions so that functools.partial objects holding them can be pickled into real worker processes."""
     tr = Trace()
     real_gni, real_env = S.get_next_imf, S.interp_envelope
-    nenv = [0]
-
-    def gni(*a, **k):
-        tr.gni_calls += 1
-        if tr.gni_calls > max_gni:
-            raise PathAbort("unwinding bound: more than %d single-IMF extractions" % max_gni, kind='bound')
-        tr.events.append(('gni',))
-        r = real_gni(*a, **k)
-        tr.events.append(('gni-end', r[1]))
-        return r
-
-    def env(*a, **k):
-        nenv[0] += 1
-        if nenv[0] > max_env:
-            raise PathAbort("unwinding bound: more than %d envelope evaluations" % max_env, kind='bound')
-        r = real_env(*a, **k)
-        tr.events.append(('env', r is None, k.get('mode', a[1] if len(a) > 1 else 'upper')))
-        return r
-    gni.__wrapped__ = real_gni
-    S.get_next_imf, S.interp_envelope = gni, env
+    if real_gni is _traced_gni:     # nested use
+        yield _TR['trace']
+        return
+    _TR.update(trace=tr, gni=real_gni, env=real_env, max_gni=max_gni, max_env=max_env, nenv=0)
+    S.get_next_imf, S.interp_envelope = _traced_gni, _traced_env
     try:
         yield tr
     finally:
